@@ -136,7 +136,7 @@ pub fn run(ctx: &mut Ctx) {
             continue;
         }
         let backend = if rng.chance(1, 6) { Backend::File } else { Backend::Memory };
-        let (mut store, _p) = new_store(backend, &scratch);
+        let (mut store, db_path) = new_store(backend, &scratch);
         // documents: sorted neighbours
         let mut docs: Vec<Doc> = vec![];
         let mut raw_ff = ff1.id().to_bytes();
@@ -204,7 +204,59 @@ pub fn run(ctx: &mut Ctx) {
                     if open {
                         let _ = store.load_replica_info(&ids[t]);
                     }
+                    // On a file: the removal may be cut by the age-based commit at any of its store
+                    // accesses and the process may die right there. The image taken at that instant
+                    // must show the document either as it was or not at all, and the others untouched.
+                    let crash_at = match (&db_path, open) {
+                        (Some(db), false) if rng.chance(1, 2) => {
+                            let _ = store.flush();
+                            let start = iroh_docs::verif::store_accesses();
+                            let p = rng.below(5);
+                            let img = scratch.path("c16img");
+                            let (db2, img2) = (db.clone(), img.clone());
+                            iroh_docs::verif::set_access_callback(Some(Box::new(move |n| {
+                                if n == start + p {
+                                    let _ = std::fs::copy(&db2, &img2);
+                                }
+                            })));
+                            iroh_docs::verif::age_transaction_at(start + p);
+                            Some((img, p))
+                        }
+                        _ => None,
+                    };
                     let res = store.remove_replica(&ids[t]);
+                    if let Some((img, p)) = crash_at {
+                        iroh_docs::verif::set_access_callback(None);
+                        iroh_docs::verif::age_transaction_at(usize::MAX);
+                        if img.exists() {
+                            ctx.count("crash_images_inside_a_removal", 1);
+                            match Store::persistent(&img) {
+                                Err(e) => {
+                                    ctx.violation(case, "crash-image-of-a-removal-does-not-open", json!({"access": p, "err": format!("{e:?}"), "trace": trace}));
+                                    return;
+                                }
+                                Ok(mut s2) => {
+                                    for (i, id) in ids.iter().enumerate() {
+                                        let Ok(o) = observe(&mut s2, *id) else { continue };
+                                        let gone = o.entries.is_empty() && o.heads.is_empty() && o.peers.is_none() && o.kind.is_none() && !o.loadable && o.policy == format!("{:?}", DownloadPolicy::default());
+                                        let ok = o == before[i] || (i == t && gone);
+                                        if !ok {
+                                            let mut left = vec![];
+                                            if o.entries != before[i].entries { left.push(if o.entries.is_empty() { "entries-gone" } else { "entries-differ" }); }
+                                            if o.heads != before[i].heads { left.push(if o.heads.is_empty() { "heads-gone" } else { "heads-differ" }); }
+                                            if o.peers != before[i].peers { left.push("peers"); }
+                                            if o.policy != before[i].policy { left.push("policy"); }
+                                            if o.kind != before[i].kind { left.push("capability"); }
+                                            let sig = if i == t { format!("crash-inside-removal-leaves-part-of-the-document:{}", left.join("+")) } else { format!("crash-inside-removal-changes-another-document:{}", left.join("+")) };
+                                            ctx.violation(case, &sig, json!({"doc": i, "removed": t, "store_access_of_the_removal": p, "trace": trace}));
+                                            return;
+                                        }
+                                    }
+                                }
+                            }
+                            let _ = std::fs::remove_file(&img);
+                        }
+                    }
                     trace.push(format!("remove doc{t} open={open} -> {:?}", res.as_ref().map_err(|e| e.to_string())));
                     if open {
                         ctx.count("removals_attempted_while_open", 1);
